@@ -66,3 +66,50 @@ pub(crate) fn set_state(m: &mut RegionMetadata, st: u8) {
         _ => m.state.set_needs_write(),
     }
 }
+
+/// Round trip of the real encoder: from_bytes(to_bytes(m)) = m for every valid metadata with a
+/// short name (all start/len/reserved values satisfying the validity rules).
+#[kani::proof]
+#[kani::unwind(6)]
+#[kani::stub(alloc::fmt::format, stubs::format_stub)]
+#[kani::stub(<[u8]>::to_vec, stubs::to_vec_stub)]
+fn c17_meta_roundtrip_valid() {
+    let start: usize = kani::any();
+    let len: usize = kani::any();
+    let reserved: usize = kani::any();
+    kani::assume(start % PAGE_SIZE == 0 && reserved % PAGE_SIZE == 0 && reserved >= PAGE_SIZE && len <= reserved);
+    let two = kani::any::<bool>();
+    let m = mk_meta(if two { "ab" } else { "x" }, start, len, reserved, 0);
+    let b = m.to_bytes();
+    let r = RegionMetadata::from_bytes(&b);
+    match &r {
+        Ok(g) => {
+            assert!(g.start == start && g.len == len && g.reserved == reserved);
+            assert!(g.id.len() == if two { 2 } else { 1 });
+            assert!(g.id.as_bytes()[0] == if two { b'a' } else { b'x' });
+        }
+        Err(_) => assert!(false, "valid metadata must decode"),
+    }
+    kani::cover!(start > (1usize << 40) && len == reserved, "large offsets, full region");
+    core::mem::forget((r, m));
+}
+
+/// The longest legal name (1024 bytes) decodes; 1025 is rejected (structure only: ASCII content).
+#[kani::proof]
+#[kani::unwind(6)]
+#[kani::stub(alloc::fmt::format, stubs::format_stub)]
+#[kani::stub(<[u8]>::to_vec, stubs::to_vec_len_only_stub)]
+#[kani::stub(std::string::String::from_utf8, stubs::from_utf8_trust_stub)]
+fn c17_meta_name_length_limits() {
+    let mut b = [b'a'; SIZE_OF_REGION_METADATA];
+    let n: u64 = kani::any();
+    kani::assume(n == 1024 || n == 1025 || n == 1023);
+    b[0..8].copy_from_slice(&0u64.to_le_bytes());
+    b[8..16].copy_from_slice(&0u64.to_le_bytes());
+    b[16..24].copy_from_slice(&4096u64.to_le_bytes());
+    b[24..32].copy_from_slice(&n.to_le_bytes());
+    let r = RegionMetadata::from_bytes(&b);
+    assert!(r.is_ok() == (n <= 1024));
+    kani::cover!(n == 1024 && r.is_ok(), "1024-byte name accepted");
+    core::mem::forget(r);
+}
